@@ -37,7 +37,7 @@ class HistoryRunner:
     """Performs one random operation per call to step(); never raises (failed API calls are part of the history)."""
 
     KINDS = ["create", "create", "delete", "delete", "move", "move_sibling", "move_sibling", "link_add", "link_del", "attr_set", "create_bad",
-             "setlist", "clear", "reqrel_create", "reqrel_del", "reqrel_del", "new_namespace", "delete_linked"]
+             "setlist", "clear", "reqrel_create", "reqrel_del", "reqrel_del", "new_namespace", "delete_linked", "use_stale"]
 
     def __init__(self, model, rng: random.Random, savedir=None, kinds: list[str] | None = None):
         self.model, self.rng, self.savedir = model, rng, savedir
@@ -178,6 +178,62 @@ class HistoryRunner:
                 self._last = f"delete (referenced by a link element) {type(o).__name__}({o.uuid}) from {type(cont[0]).__name__}.{cont[1]}"
                 getattr(cont[0], cont[1]).remove(o)
                 return self._last
+        return None
+
+    def op_use_stale(self):
+        """delete an object and then go on using the handle: create below it.  Either that is refused, or whatever it creates must be
+        consistent with the lookups (the harness looks up the ids collected in self.extra_ids)"""
+        o = self.pick(lambda o: bool(self.rels(o, ("direct",))) and self.container_of(o) is not None and len(o._element) < 40)
+        if o is None:
+            return None
+        cont = self.container_of(o)
+        name, acc = self.rng.choice(self.rels(o, ("direct",)))
+        self._last = f"delete {type(o).__name__}({o.uuid}) from {type(cont[0]).__name__}.{cont[1]}, then {name}.create() on the stale object"
+        getattr(cont[0], cont[1]).remove(o)
+        if not hasattr(self, "extra_ids"):
+            self.extra_ids = []
+        try:
+            new = getattr(o, name).create(name=f"stale{self.n}")
+            self.extra_ids.append(new.uuid)
+            return self._last + f" -> accepted, {new.uuid}"
+        except Exception as e:  # noqa: BLE001
+            return self._last + f" -> refused ({type(e).__name__})"
+
+    def op_placeholder_ancestor(self):
+        """delete or move an element that CONTAINS a fragment placeholder (fragmented layouts only)"""
+        loader = self.model._loader
+        cands = []
+        for p, tree in loader.trees.items():
+            if p.suffix not in graph.SEMANTIC or p.parts[0] != "\0":
+                continue
+            for ph in tree.root.iter():
+                if isinstance(ph.tag, str) and ph.get("href"):
+                    e = ph.getparent()
+                    hops = 0
+                    while e is not None and e.getparent() is not None and hops < 3:
+                        if e.get("id"):
+                            cands.append(e.get("id"))
+                        e = e.getparent()
+                        hops += 1
+        self.rng.shuffle(cands)
+        for uid in cands[:20]:
+            try:
+                o = self.model.by_uuid(uid)
+            except Exception:  # noqa: BLE001
+                continue
+            cont = self.container_of(o)
+            if cont is None:
+                continue
+            if self.rng.random() < 0.5:
+                dest = self.pick(lambda x: type(x) is type(cont[0]) and x._element is not cont[0]._element
+                                 and o._element not in list(x._element.iterancestors()) and x._element is not o._element)
+                if dest is not None:
+                    self._last = f"move {type(o).__name__}({o.uuid}), which contains a fragment placeholder, to {type(dest).__name__}({dest.uuid}).{cont[1]}"
+                    getattr(dest, cont[1]).append(o)
+                    return self._last
+            self._last = f"delete {type(o).__name__}({o.uuid}), which contains a fragment placeholder, from {type(cont[0]).__name__}.{cont[1]}"
+            getattr(cont[0], cont[1]).remove(o)
+            return self._last
         return None
 
     def op_reqrel_target_delete(self):
